@@ -197,7 +197,15 @@ func (w *World) doEnvChange(t *Task) {
 	tp.Begin("envchange")
 	defer tp.End()
 	e := w.EnvSpec
-	switch tp.Pick("envkind", 4) {
+	kind := tp.Pick("envkind", 4)
+	if w.Cfg.RedactionFlips && e.RedactionPolicy != "urns" && tp.Chance("anonymize", 5, 6) {
+		kind = 4
+	}
+	switch kind {
+	case 4:
+		// the workspace becomes anonymous: from now on URNs are redacted
+		e.RedactionPolicy = "urns"
+		w.fault("redaction_switched_on")
 	case 0:
 		// rotate allowed languages
 		if len(e.AllowedLanguages) > 1 {
@@ -221,7 +229,12 @@ func (w *World) doEnvChange(t *Task) {
 	for _, c := range w.Contacts {
 		c.dirty = true
 	}
-	// asset caches are rebuilt with the new environment (group queries parse with it)
+	// asset caches are rebuilt with the new environment (group queries parse with it) - unless the
+	// cache has not expired yet: sessions then run under an environment their assets were not loaded with
+	if tp.Chance("assets_keep_old_environment", 1, 3) {
+		w.fault("asset_cache_older_environment")
+		return
+	}
 	if sa, err := w.Store.NewSA(w.Env, w.Store.Latest()); err == nil {
 		w.hostSA = sa
 	}
